@@ -37,7 +37,7 @@ CBMC_FLAGS = ["--no-malloc-may-fail", "--no-undefined-shift-check", "--no-signed
 
 class Harness:
     def __init__(self, name, unwind=3, unwindset=None, timeout=900, mem_gb=14, kind="proof",
-                 note="", bounds=None, cbmc_args=None, focus=None, covers=None, expect_panic=None):
+                 note="", bounds=None, cbmc_args=None, focus=None, covers=None, expect_panic=None, spin_loops=None):
         self.name = name
         self.unwind = unwind
         self.unwindset = list(unwindset or [])   # (regex over "<file> :: <function>", bound)
@@ -52,6 +52,10 @@ class Harness:
         # regex: the harness MUST end in a panic of the real code matching it ("refused loudly");
         # its tagged assert!(false) after the call must then be unreachable
         self.expect_panic = expect_panic
+        # (regex, tag): in this harness every iteration of the matching loop makes at least one
+        # counted model call and the trace is cut after a call budget, so running out of the
+        # (budget-derived) unwinding bound there means iterations without any system call: spinning
+        self.spin_loops = spin_loops or []
 
     @property
     def short(self):
@@ -107,13 +111,42 @@ def find_symtab(target, short):
     return max(pats, key=os.path.getmtime)
 
 
+def instrumented_kani_lib():
+    """Kani's C model of the Rust allocator entry points (__rust_alloc, __rust_alloc_zeroed,
+    __rust_realloc) with one line added to each: it bumps the counter VK_ALLOCS, a
+    #[no_mangle] static of the harness crate (mk::proc_).  This is the C17 allocation
+    observer: it sits below every std container, including Vec growth through
+    Global::grow, which stubbing std::alloc::realloc does not see (measured)."""
+    src = os.path.expanduser("~/.kani/kani-0.68.0/library/kani/kani_lib.c")
+    out = WORK + "/kani_lib_vk.c"
+    text = open(src).read()
+    text = "extern unsigned int VK_ALLOCS;\n" + text
+    n = 0
+    for fn in ("__rust_alloc", "__rust_alloc_zeroed", "__rust_realloc"):
+        m = re.search(r"uint8_t \*%s\([^)]*\)\s*\{" % fn, text)
+        if m:
+            text = text[:m.end()] + "\n    VK_ALLOCS++;" + text[m.end():]
+            n += 1
+    if n != 3:
+        return src
+    try:
+        if open(out).read() == text:
+            return out
+    except FileNotFoundError:
+        pass
+    os.makedirs(WORK, exist_ok=True)
+    with open(out, "w") as f:
+        f.write(text)
+    return out
+
+
 def link_goto(symtab):
     """The post-codegen steps of Kani 0.68's driver (captured from a running
     instance): link with Kani's C library, set the entry point, add the CPROVER
     library, give undefined functions an assert-false body, normalise back edges."""
     out = symtab[:-len(".symtab.out")] + ".vk.out"
     mangled = "_" + os.path.basename(symtab)[:-len(".symtab.out")].split("__", 1)[1]
-    kani_lib = os.path.expanduser("~/.kani/kani-0.68.0/library/kani/kani_lib.c")
+    kani_lib = instrumented_kani_lib()
     # vtable restrictions (-Z restrict-vtable): a virtual call may only reach the
     # methods of types actually coerced to that trait object in the program.
     # Without it CBMC's function-pointer removal lets `drop(Box<dyn Error>)` inside
@@ -383,6 +416,13 @@ def run_cbmc(h, goto, focus, want_trace=False, only_props=None):
     res.update(tagged_fail=tagged_fail, other_fail=other_fail[:12], covers_sat=sorted(set(covers_sat)),
                covers_unsat=sorted(c for c in (set(covers_unsat) - set(covers_sat)) if c in h.covers) + sorted(c for c in h.covers if c not in covers_sat and c not in covers_unsat), decided_tags=sorted(decided_tags),
                unreachable_tags=sorted(unreachable_tags - decided_tags))
+    for rx, tag in h.spin_loops:
+        spin = [c for c in other_fail if ("unwinding assertion" in c["desc"]) and re.search(rx, c["loc"] + " " + c["name"])]
+        if spin:
+            other_fail = [c for c in other_fail if c not in spin]
+            res["other_fail"] = other_fail[:12]
+            tagged_fail.append({"desc": tag, "loc": spin[0]["loc"], "name": spin[0]["name"]})
+            res["tagged_fail"] = tagged_fail
     if h.expect_panic:
         expected = [c for c in other_fail if re.search(h.expect_panic, c["desc"])]
         other_fail = [c for c in other_fail if not re.search(h.expect_panic, c["desc"])]
